@@ -315,6 +315,37 @@ pub fn run(rep: &mut Report) {
         let xs = ctor_inputs(k, &fl);
         sweep(rep, &format!("c17.ctor[{}]", CTORS[k]), xs.len() as u64, |i, out| j_ctor(k, xs[i as usize], out));
     }
+    // interior scan (round 8): evenly spread, unremarkable constructor inputs over each constructor's range (whole and
+    // fractional values alternate for the UNIX constructors, whose inputs are usually whole seconds / milliseconds)
+    {
+        let nsc: u64 = if deep { 3_000_000 } else { 250_000 };
+        rep.bound("interior_scan_ctor_inputs", nsc);
+        sweep(rep, "c17.scan_ctor", 12 * nsc, |i, out| {
+            let k = (i % 12) as usize;
+            let j = i / 12;
+            let (lo, hi): (f64, f64) = match k {
+                0 | 1 | 6 | 11 => (15_020.0 - 3_652_000.0, 15_020.0 + 3_652_000.0),
+                2 | 3 | 7 | 9 | 10 => (2_415_020.5 - 3_652_000.0, 2_415_020.5 + 3_652_000.0),
+                4 | 8 => (-3.1e11, 3.1e11),
+                _ => (-3.1e14, 3.1e14),
+            };
+            let f = lattice::scan_point(j, k % 6, 0, (1i128 << 53) - 1) as f64 / (1u64 << 53) as f64;
+            let mut x = lo + f * (hi - lo);
+            // one input in four sits near today (MJD 40 000 - 80 000 and the matching JD / UNIX ranges): finer float resolution
+            if j % 4 == 1 {
+                x = match k {
+                    0 | 1 | 6 | 11 => 40_000.0 + f * 40_000.0,
+                    2 | 3 | 7 | 9 | 10 => 2_440_000.5 + f * 40_000.0,
+                    4 | 8 => f * 1.0e10,
+                    _ => f * 1.0e13,
+                };
+            }
+            if matches!(k, 4 | 5 | 8) && j % 2 == 0 {
+                x = x.round();
+            }
+            j_ctor(k, x, out)
+        });
+    }
 }
 
 pub fn replay(check: &str, a: &[String], out: &mut Local) -> bool {
